@@ -3,6 +3,8 @@
 From Coq Require Import List NArith ZArith.
 From Coq.Strings Require Import Byte.
 From SP Require Import Bytes Params Errors BaseX Encodings Armor ArmorProofs.
+From Coq Require String.
+From SP Require Streams GoLang GoLang2 GoAst GoAstStreams GoAstProofs5b.
 Import ListNotations.
 Open Scope N_scope.
 
@@ -77,6 +79,187 @@ Theorem C11_dearmor_sound (typ : Z) (input : bytes) (d : dearmored) :
     BaseX.decode base62 (body_digits body) = (da_payload d, None).
 Proof. exact (dearmor_sound typ input d). Qed.
 
+(* ---- source ties: the armor ENCODER stream (/repo/armor.go), lemmas of proofs/GoAstProofs5b.v ---- *)
+(* The terms f_saltpack_armorEncoderStream_{Write, spaceAndOutputBuffer, Close} are generated on every run from the
+   Go syntax trees of /repo/armor.go (gen/GoAstStreams.v) and run by the evaluator of model/GoLang2.v ([run2] =
+   run_func2 with the fuel F as a parameter; the theorems hold for EVERY fuel above an explicit bound).  The model is
+   the state machine ae_space / ae_write / ae_close of model/Streams.v (armor_stream, the one
+   C13_write_oblivious_armor equates with the one-shot armor_seal these C11 theorems are about).
+   The *armorEncoderStream object is [g_armor chars footer w encv k]: s.buf = the pending characters, the footer,
+   s.encoded = the underlying io.Writer, s.encoder = an arbitrary value encv, s.nWords = k, params = Armor62Params
+   (15-character words, 200 words per line, '.').  The writer is [g_wr w], w : wr = (w_log, w_sched): every
+   Writer.Write appends its argument to the log and returns the head of the schedule as its error, so the theorems
+   hold for every failure behaviour; [run_calls calls w] hands byte strings to it until one call fails: (calls made,
+   error, writer afterwards).  The model has no failing writer: the theorems say that the Go code makes exactly the
+   model's writes, in order, up to and including the first one that fails.  ga_space, ga_close_tail, ga_write,
+   ga_close are the Go-level specification functions of GoAstProofs5b.v.
+   NOT EXPRESSIBLE in the evaluator (reported there): the base-X encoder behind s.encoder writes into the SAME
+   *bytes.Buffer as s.buf; values of the evaluator are trees without references, so the bytes the encoder writes
+   cannot appear in s.buf.  What is expressible is proved: the control flow of Write and Close for ARBITRARY
+   callees (W, C, SP = the meaning given to s.encoder.Write(b), s.encoder.Close(), s.spaceAndOutputBuffer():
+   results first, then the updated receiver) — the glue theorems; spaceAndOutputBuffer and the tail of Close in full;
+   and the composition against ae_write / ae_close with the sharing stated explicitly as hypotheses (the _aliased
+   theorems). *)
+Section C11_source.
+Import GoLang GoLang2 GoAst GoAstStreams Streams GoAstProofs5b String.StringSyntax.
+Local Open Scope nat_scope.
+Variable W : gval -> bytes -> option (list gval).
+Variable C : gval -> option (list gval).
+Variable SP : gval -> option (list gval).
+
+(* s.spaceAndOutputBuffer() computes exactly ga_space: the error, the pending characters, the word count and the
+   writer left in `s`, for every state and writer schedule.  Hypothesis: fuel >= 14 + len(chars)/15 (one loop turn
+   per 15-character word).  (nWords is a Go int; the evaluator's int does not wrap, Go's would after 2^63 words.) *)
+Theorem C11_source_spaceAndOutputBuffer_run (chars footer : bytes) (w : wr) (encv : gval) (k : N) (F : nat) :
+  14 + List.length chars / 15 <= F ->
+  let r := run2 (ext_ae W C SP) F f_saltpack_armorEncoderStream_spaceAndOutputBuffer [g_armor chars footer w encv k] in
+  let '(er, chars', k', w') := ga_space (S (List.length chars / 15)) chars k w in
+  fst r = ORet [g_werr er] /\ lookup "s" (snd r) = Some (g_armor chars' footer w' encv k').
+Proof. exact (go_spaceAndOutputBuffer_run W C SP chars footer w encv k F). Qed.
+
+(* ga_space against the model's ae_space: the writer calls are word, separator, word, separator ... (sp_calls), their
+   concatenation is what ae_space appends to its output, the error is the first failing call's, and without a
+   failure the remaining characters and the word count are ae_space's.  No hypothesis. *)
+Theorem C11_source_ga_space_model (n : nat) (chars : bytes) (k : N) (w : wr) (acc : bytes) :
+  let '(out, rest, k') := ae_space n chars k acc in
+  let '(j, erm, wm) := run_calls (sp_calls n chars k) w in
+  let '(er, chars', k2, w') := ga_space n chars k w in
+  out = acc ++ List.concat (sp_calls n chars k) /\ er = erm /\ w' = wm /\ (er = None -> chars' = rest /\ k2 = k').
+Proof. exact (ga_space_model n chars k w acc). Qed.
+
+(* s.Write(b), for EVERY behaviour of its two callees: if s.encoder.Write(b) returns (n, e1) leaving encv', and (when
+   e1 is nil) s.spaceAndOutputBuffer() returns e2 leaving the receiver s2, then Write returns the encoder's count n
+   with the first error of the two, and the receiver is what the callees left.  Hypotheses: fuel >= 12 and the two
+   equations naming the callees' behaviour. *)
+Theorem C11_source_armor_Write_glue (chars footer b : bytes) (w : wr) (encv encv' s2 : gval) (k : N) (n : Z)
+        (e1 e2 : option String.string) (F : nat) :
+  12 <= F ->
+  W encv b = Some [VInt n; g_werr e1; encv'] ->
+  (e1 = None -> SP (g_armor chars footer w encv' k) = Some [g_werr e2; s2]) ->
+  let r := run2 (ext_ae W C SP) F f_saltpack_armorEncoderStream_Write [g_armor chars footer w encv k; VBytes b] in
+  fst r = ORet [VInt n; g_werr (match e1 with Some x => Some x | None => e2 end)] /\
+  lookup "s" (snd r) = Some (match e1 with Some _ => g_armor chars footer w encv' k | None => s2 end).
+Proof. exact (go_armor_Write_glue W C SP chars footer b w encv encv' s2 k n e1 e2 F). Qed.
+
+(* s.Close(), for EVERY behaviour of its two callees: the error of s.encoder.Close() is returned; else that of
+   s.spaceAndOutputBuffer(); else the tail runs on the receiver the callees left: one Write of the remaining
+   characters, then one Fprintf of padding + ". " + footer + ".\n" (ga_close_tail), whose error is returned; every
+   writer schedule.  Hypotheses: fuel >= 20 and the two equations naming the callees' behaviour. *)
+Theorem C11_source_armor_Close_glue (chars footer : bytes) (w : wr) (encv encv' : gval) (k : N)
+        (e1 e2 : option String.string) (chars2 footer2 : bytes) (w2 : wr) (encv2 : gval) (k2 : N) (F : nat) :
+  20 <= F ->
+  C encv = Some [g_werr e1; encv'] ->
+  (e1 = None -> SP (g_armor chars footer w encv' k) = Some [g_werr e2; g_armor chars2 footer2 w2 encv2 k2]) ->
+  let r := run2 (ext_ae W C SP) F f_saltpack_armorEncoderStream_Close [g_armor chars footer w encv k] in
+  match e1 with
+  | Some x => fst r = ORet [VErr x []] /\ lookup "s" (snd r) = Some (g_armor chars footer w encv' k)
+  | None =>
+    match e2 with
+    | Some y => fst r = ORet [VErr y []] /\ lookup "s" (snd r) = Some (g_armor chars2 footer2 w2 encv2 k2)
+    | None =>
+      let '(e, w4, k4) := ga_close_tail chars2 footer2 w2 k2 in
+      fst r = ORet [g_werr e] /\ lookup "s" (snd r) = Some (g_armor chars2 footer2 w4 encv2 k4)
+    end
+  end.
+Proof. exact (go_armor_Close_glue W C SP chars footer w encv encv' k e1 e2 chars2 footer2 w2 encv2 k2 F). Qed.
+
+(* the end of Close against the model: the two writes of ga_close_tail are the last characters, then (a separator if
+   the last word is full) ". " footer ".\n" — the tail of ae_close; the error is the first failing call's and
+   without a failure the word count is incremented.  No hypothesis. *)
+Theorem C11_source_ga_close_tail_model (lst footer : bytes) (w : wr) (k : N) :
+  let pad := if Nat.eqb (List.length lst) bytes_per_word then [ae_sep (k + 1)%N] else [] in
+  let '(j, erm, wm) := run_calls [lst; pad ++ [dot; sp] ++ footer ++ [dot; x0a]] w in
+  let '(e, w', k') := ga_close_tail lst footer w k in
+  e = erm /\ w' = wm /\ (e = None -> k' = (k + 1)%N).
+Proof. exact (ga_close_tail_model lst footer w k). Qed.
+
+(* ga_write = the composition encoder.Write; (the bytes the encoder wrote appear in s.buf); spaceAndOutputBuffer —
+   against the model's ae_write on the state (buffered bytes, pending characters, words): the count is len(p), the
+   encoder object keeps its invariant with the buffered bytes of the model's new state, and the bytes handed to the
+   armor stream's writer are, in order and up to the first failing call, the model's output; without a failure the
+   pending characters and word count are the model's.  Hypotheses: gobj_ok base62 128 o (the invariant NewEncoder
+   establishes, see the C10_source_ theorems), e.err = nil, and the encoder's own writer (the bytes.Buffer) is empty and never
+   fails. *)
+Theorem C11_source_ga_write_model (o : gobj) (chars : bytes) (k : N) (w : wr) (p : bytes) :
+  gobj_ok base62 128 o -> go_err o = None -> go_w o = mkWr [] [] ->
+  let st := mkAe (firstn (go_nbuf o) (go_buf o)) chars k in
+  let (out, st') := ae_write st p in
+  let '(n, er, o2, chars', k', w') := ga_write o chars k w p in
+  n = List.length p /\ gobj_ok base62 128 o2 /\ go_err o2 = None /\ go_w o2 = mkWr [] [] /\
+  firstn (go_nbuf o2) (go_buf o2) = ae_bx st' /\
+  exists (calls : list bytes) (j : nat),
+    List.concat calls = out /\ run_calls calls w = (j, er, w') /\
+    (er = None -> chars' = ae_chars st' /\ k' = ae_words st').
+Proof. exact (ga_write_model o chars k w p). Qed.
+
+(* ga_close = encoder.Close; (shared buffer); spaceAndOutputBuffer; tail — against the model's ae_close: the bytes
+   handed to the writer are, in order and up to the first failing call, exactly ae_close st footer (last words,
+   padding, ". ", footer, ".\n"), and the error returned is that call's.  Same hypotheses. *)
+Theorem C11_source_ga_close_model (o : gobj) (chars : bytes) (k : N) (w : wr) (footer : bytes) :
+  gobj_ok base62 128 o -> go_err o = None -> go_w o = mkWr [] [] ->
+  let st := mkAe (firstn (go_nbuf o) (go_buf o)) chars k in
+  let (e, w4) := ga_close o chars k w footer in
+  exists (calls : list bytes) (j : nat),
+    List.concat calls = ae_close st footer /\ run_calls calls w = (j, e, w4).
+Proof. exact (ga_close_model o chars k w footer). Qed.
+
+(* the translated Write against ae_write WHEN the two method calls are read as: (4th hypothesis) s.encoder.Write(p) =
+   the base-X encoder's Write (gw_write, tied by C10_source_encoder_Write) with its trailing copy performed, and
+   (5th) s.spaceAndOutputBuffer() = the translated method (C11_source_spaceAndOutputBuffer_run) run after the bytes
+   the encoder wrote have appeared in s.buf, the encoder's log drained.  These two readings state the sharing of the
+   bytes.Buffer, which the evaluator cannot express.  Other hypotheses: fuel >= 12, gobj_ok base62 128 o, e.err = nil,
+   the encoder's own writer empty and never failing.  Conclusion: Write returns (len p, er), and the receiver, the
+   encoder object and the bytes written are as in C11_source_ga_write_model. *)
+Theorem C11_source_armor_Write_aliased (o : gobj) (chars footer : bytes) (k : N) (w : wr) (p : bytes) (F : nat) :
+  12 <= F -> gobj_ok base62 128 o -> go_err o = None -> go_w o = mkWr [] [] ->
+  (let '(n, e1, o', p') := gw_write base62 128 o p in
+   W (g_obj base62 o) p = Some [VInt (Z.of_nat n); g_werr e1; g_obj base62 (pending_copy o' p')]) ->
+  (forall o1 : gobj,
+   let chars1 := chars ++ List.concat (w_log (go_w o1)) in
+   let '(er, chars', k', w') := ga_space (S (List.length chars1 / 15)) chars1 k w in
+   SP (g_armor chars footer w (g_obj base62 o1) k) = Some [g_werr er; g_armor chars' footer w' (g_obj base62 (drained o1)) k']) ->
+  let r := run2 (ext_ae W C SP) F f_saltpack_armorEncoderStream_Write [g_armor chars footer w (g_obj base62 o) k; VBytes p] in
+  let st := mkAe (firstn (go_nbuf o) (go_buf o)) chars k in
+  let (out, st') := ae_write st p in
+  exists (er : option String.string) (o2 : gobj) (chars' : bytes) (k' : N) (w' : wr),
+    fst r = ORet [VInt (Z.of_nat (List.length p)); g_werr er] /\
+    lookup "s" (snd r) = Some (g_armor chars' footer w' (g_obj base62 o2) k') /\
+    gobj_ok base62 128 o2 /\ go_err o2 = None /\ go_w o2 = mkWr [] [] /\
+    firstn (go_nbuf o2) (go_buf o2) = ae_bx st' /\
+    exists (calls : list bytes) (j : nat),
+      List.concat calls = out /\ run_calls calls w = (j, er, w') /\
+      (er = None -> chars' = ae_chars st' /\ k' = ae_words st').
+Proof. exact (go_armor_Write_aliased W C SP o chars footer k w p F). Qed.
+
+(* the translated Close against ae_close under the same reading of the two method calls (s.encoder.Close() = gw_close,
+   tied by C10_source_encoder_Close): it returns the error of the first failing write, and the bytes handed to the
+   writer are, in order and up to that call, exactly ae_close st footer.  Hypotheses: fuel >= 20, gobj_ok, e.err =
+   nil, the encoder's own writer empty and never failing, the two readings. *)
+Theorem C11_source_armor_Close_aliased (o : gobj) (chars footer : bytes) (k : N) (w : wr) (F : nat) :
+  20 <= F -> gobj_ok base62 128 o -> go_err o = None -> go_w o = mkWr [] [] ->
+  (let (e1, o') := gw_close base62 o in C (g_obj base62 o) = Some [g_werr e1; g_obj base62 o']) ->
+  (forall o1 : gobj,
+   let chars1 := chars ++ List.concat (w_log (go_w o1)) in
+   let '(er, chars', k', w') := ga_space (S (List.length chars1 / 15)) chars1 k w in
+   SP (g_armor chars footer w (g_obj base62 o1) k) = Some [g_werr er; g_armor chars' footer w' (g_obj base62 (drained o1)) k']) ->
+  let r := run2 (ext_ae W C SP) F f_saltpack_armorEncoderStream_Close [g_armor chars footer w (g_obj base62 o) k] in
+  let st := mkAe (firstn (go_nbuf o) (go_buf o)) chars k in
+  exists (e : option String.string) (w4 : wr) (calls : list bytes) (j : nat),
+    fst r = ORet [g_werr e] /\
+    List.concat calls = ae_close st footer /\ run_calls calls w = (j, e, w4) /\
+    exists (chars2 : bytes) (k2 : N) (ev : gval), lookup "s" (snd r) = Some (g_armor chars2 footer w4 ev k2).
+Proof. exact (go_armor_Close_aliased W C SP o chars footer k w F). Qed.
+End C11_source.
+
+Print Assumptions C11_source_spaceAndOutputBuffer_run.
+Print Assumptions C11_source_ga_space_model.
+Print Assumptions C11_source_armor_Write_glue.
+Print Assumptions C11_source_armor_Close_glue.
+Print Assumptions C11_source_ga_close_tail_model.
+Print Assumptions C11_source_ga_write_model.
+Print Assumptions C11_source_ga_close_model.
+Print Assumptions C11_source_armor_Write_aliased.
+Print Assumptions C11_source_armor_Close_aliased.
 Print Assumptions C11_frames_parse.
 Print Assumptions C11_body_shape.
 Print Assumptions C11_body_digits.
